@@ -1,7 +1,119 @@
-(** C12 - property theorems only. *)
+(** C12 - route cache transparency.  Property theorems only: each is closed by
+    [exact] of a lemma proved in proofs/MuxProofsCache.v.  The cache is an
+    arbitrary partial map key -> (result, filters to re-check); before every
+    request an arbitrary predicate [keep] decides which keys survive (this covers
+    every cache size and every replacement policy, ARC included).  [ideal] is the
+    flag set without the four defects of the unchanged code (the KF-C12 entries). *)
 From EG.lib Require Import Base.
 From EG.model Require Import Mux.
-From EG.proofs Require Import MuxProofs.
+From EG.proofs Require Import MuxProofs MuxProofsCache.
 Open Scope string_scope.
 
-Theorem C12_tmp : True. Proof. exact I. Qed.
+Section C12.
+  Variable re_match : string -> string -> bool.
+  Variable re_replace : string -> string -> string -> string.
+  Variable ip_allow : N -> string -> bool.
+
+  (** two requests share a cache key iff they agree on host, method and path *)
+  Theorem C12_key_injective : forall rq1 rq2,
+    mk_key ideal rq1 = mk_key ideal rq2 <->
+    (rq_host rq1 = rq_host rq2 /\ rq_method rq1 = rq_method rq2 /\ rq_path rq1 = rq_path rq2).
+  Proof. exact key_injective. Qed.
+
+  (** invariant: along every run (any requests, any evictions) every cached value answers
+      every request carrying its key exactly like the cache-less router *)
+  Theorem C12_cache_sound_invariant : forall sv (steps : list ((key -> bool) * request)) k v,
+    clookup k (run_cache re_match re_replace ip_allow ideal sv [] steps) = Some v ->
+    forall rq, mk_key ideal rq = k ->
+    hit_result ip_allow rq v = search_nocache re_match ip_allow sv rq.
+  Proof. exact (cache_sound_invariant re_match re_replace ip_allow). Qed.
+
+  (** on a sound cache the hit branch returns what the miss branch would compute *)
+  Theorem C12_hit_equals_miss : forall sv c rq v,
+    cache_sound re_match ip_allow sv c -> clookup (mk_key ideal rq) c = Some v ->
+    fst (search_cached re_match ip_allow ideal sv c rq) = search_nocache re_match ip_allow sv rq.
+  Proof. exact (hit_equals_miss re_match ip_allow). Qed.
+
+  (** transparency: for all servers, all request sequences and all eviction behaviours the
+      outcomes (status, handler invoked, path seen by it) with the cache are those of the
+      cache-less router *)
+  Theorem C12_transparent : forall sv (steps : list ((key -> bool) * request)),
+    run_cached re_match re_replace ip_allow ideal sv [] steps =
+    map (fun s => serve_nocache re_match re_replace ip_allow sv (snd s)) steps.
+  Proof. exact (transparent re_match re_replace ip_allow). Qed.
+
+  (** an earlier history - whatever requests it contains, colliding or not - never changes how
+      a later request is answered *)
+  Theorem C12_no_cross_request_influence : forall sv h1 h2 keep1 keep2 rq,
+    last (run_cached re_match re_replace ip_allow ideal sv [] (h1 ++ [(keep1, rq)])%list) Panicked =
+    last (run_cached re_match re_replace ip_allow ideal sv [] (h2 ++ [(keep2, rq)])%list) Panicked.
+  Proof. exact (no_cross_request_influence re_match re_replace ip_allow). Qed.
+End C12.
+
+(** each defect flag of the unchanged code, switched on alone, breaks transparency on a
+    concrete request sequence (which [ideal] answers transparently) *)
+Theorem C12_refuted_q_cache_key_concat :
+  exists re_match re_replace ip_allow sv (steps : list ((key -> bool) * request)),
+    let q := {| q_cache_key_concat := true; q_cache_headerless_after_header := false;
+                q_cache_status_before_ipfilter := false; q_cache_rule_filter_skipped := false |} in
+    run_cached re_match re_replace ip_allow q sv [] steps
+      <> map (fun s => serve_nocache re_match re_replace ip_allow sv (snd s)) steps /\
+    run_cached re_match re_replace ip_allow ideal sv [] steps
+      = map (fun s => serve_nocache re_match re_replace ip_allow sv (snd s)) steps.
+Proof. exact refuted_key_concat. Qed.
+
+Theorem C12_refuted_q_cache_headerless_after_header :
+  exists re_match re_replace ip_allow sv (steps : list ((key -> bool) * request)),
+    let q := {| q_cache_key_concat := false; q_cache_headerless_after_header := true;
+                q_cache_status_before_ipfilter := false; q_cache_rule_filter_skipped := false |} in
+    run_cached re_match re_replace ip_allow q sv [] steps
+      <> map (fun s => serve_nocache re_match re_replace ip_allow sv (snd s)) steps /\
+    run_cached re_match re_replace ip_allow ideal sv [] steps
+      = map (fun s => serve_nocache re_match re_replace ip_allow sv (snd s)) steps.
+Proof. exact refuted_headerless_after_header. Qed.
+
+Theorem C12_refuted_q_cache_status_before_ipfilter :
+  exists re_match re_replace ip_allow sv (steps : list ((key -> bool) * request)),
+    let q := {| q_cache_key_concat := false; q_cache_headerless_after_header := false;
+                q_cache_status_before_ipfilter := true; q_cache_rule_filter_skipped := false |} in
+    run_cached re_match re_replace ip_allow q sv [] steps
+      <> map (fun s => serve_nocache re_match re_replace ip_allow sv (snd s)) steps /\
+    run_cached re_match re_replace ip_allow ideal sv [] steps
+      = map (fun s => serve_nocache re_match re_replace ip_allow sv (snd s)) steps.
+Proof. exact refuted_status_before_ipfilter. Qed.
+
+Theorem C12_refuted_q_cache_rule_filter_skipped :
+  exists re_match re_replace ip_allow sv (steps : list ((key -> bool) * request)),
+    let q := {| q_cache_key_concat := false; q_cache_headerless_after_header := false;
+                q_cache_status_before_ipfilter := false; q_cache_rule_filter_skipped := true |} in
+    run_cached re_match re_replace ip_allow q sv [] steps
+      <> map (fun s => serve_nocache re_match re_replace ip_allow sv (snd s)) steps /\
+    run_cached re_match re_replace ip_allow ideal sv [] steps
+      = map (fun s => serve_nocache re_match re_replace ip_allow sv (snd s)) steps.
+Proof. exact refuted_rule_filter_skipped. Qed.
+
+Print Assumptions C12_key_injective.
+Print Assumptions C12_cache_sound_invariant.
+Print Assumptions C12_hit_equals_miss.
+Print Assumptions C12_transparent.
+Print Assumptions C12_no_cross_request_influence.
+Print Assumptions C12_refuted_q_cache_key_concat.
+Print Assumptions C12_refuted_q_cache_headerless_after_header.
+Print Assumptions C12_refuted_q_cache_status_before_ipfilter.
+Print Assumptions C12_refuted_q_cache_rule_filter_skipped.
+
+(** non-vacuity: on a server with filters at two levels and a header-conditioned entry ahead
+    of a header-less one, a sequence with hits, a collision attempt, a blocked client and an
+    eviction of everything before the last request is answered as by the cache-less router,
+    and the cache really is used (the final cache holds entries) *)
+Example C12_nonvacuous :
+  let rq := w_rq in
+  let all (_ : key) := true in let none (_ : key) := false in
+  let steps := [ (all, rq "a.com" "GET" "/a" [] "10.0.1.1"); (all, rq "a.com" "GET" "/a" [("X", "v1")] "10.0.1.1");
+                 (all, rq "a.co" "mGET" "/a" [] "10.0.1.1"); (all, rq "a.com" "GET" "/zz" [] "10.0.1.1");
+                 (all, rq "a.com" "GET" "/zz" [] "10.0.0.9"); (all, rq "a.com" "GET" "/a" [] "10.0.0.8");
+                 (none, rq "a.com" "GET" "/zz" [] "10.0.1.1") ] in
+  run_cached w_re w_rep w_ip ideal (w_sv true) [] steps =
+    [Dispatched "B" "/a"; Dispatched "A" "/a"; Failed 404; Failed 404; Failed 403; Failed 403; Failed 404] /\
+  List.length (run_cache w_re w_rep w_ip ideal (w_sv false) [] (firstn 4 steps)) = 3%nat.
+Proof. vm_compute. split; reflexivity. Qed.
